@@ -4,10 +4,12 @@ import vf
 
 PROP = "C07"
 THEOREMS = ["seek_path_independent", "seek_path_independent_foreign_cps", "replay_prefix", "fork_faithful", "fork_seek_faithful",
-            "checkpoint_sound", "checkpoint_sound_state", "restore_base_nearest", "append_preserves", "live_run_replays",
-            "failed_seek_state_partial"]
+            "checkpoint_sound", "checkpoint_sound_state", "restore_base_nearest", "restore_base_checked", "append_preserves", "live_run_replays",
+            "failed_seek_keeps_cursor"]
 
-TAMPERS = ["root", "commit", "pdig", "pfield", "pcalc", "nopatch", "empty", "applyfail", "rcpttx", "rcptdig"]
+TAMPERS = ["root", "commit", "pdig", "pfield", "pcalc", "nopatch", "empty", "applyfail", "rcpttx", "rcptdig", "tickgap", "noparent"]
+# tampers that hit the coordinate / parent-link / checkpoint-metadata checks of /repo 90bd2fa
+LINK_TAMPERS = ["commit", "pdig", "tickgap", "noparent"]
 TCODE = {k: i + 1 for i, k in enumerate(TAMPERS)}
 
 PRE = r"""
@@ -104,17 +106,18 @@ Fixpoint trace (commits : list N) (h0 h : list s_entry) (stop : bool) (b : s_wst
 Definition lives_of (init : slotmap) (ps : list (spatch * N)) : list s_entry * list slotmap :=
   match s_live_run init 0 None ps with Some (es, ss) => (es, init :: ss) | None => ([], [init]) end.
 
-Definition mk_entry (p : option spatch) (r pd c : N) (ps : list N) (rc : option (N * N)) (o : N) : s_entry :=
-  {| e_patch := p; e_root := r; e_pdig := pd; e_commit := c; e_parents := ps; e_receipt := rc; e_out := o |}.
+Definition mk_entry0 (tk : N) (p : option spatch) (r pd c : N) (ps : list N) (rc : option (N * N)) (o : N) : s_entry :=
+  {| e_tick := tk; e_patch := p; e_root := r; e_pdig := pd; e_commit := c; e_parents := ps; e_receipt := rc; e_out := o |}.
 Definition mk_patch (w : list (N * option N)) (f c pol d : N) : spatch :=
   {| sp_writes := w; sp_field := f; sp_calc := c; sp_policy := pol; sp_decision := d |}.
 Definition map_patch (f : spatch -> spatch) (e : s_entry) : s_entry :=
-  mk_entry (match e_patch e with Some p => Some (f p) | None => None end)
+  mk_entry0 (e_tick e) (match e_patch e with Some p => Some (f p) | None => None end)
            (e_root e) (e_pdig e) (e_commit e) (e_parents e) (e_receipt e) (e_out e).
 
 (* the harness's TamperStore edits, on the model entry *)
 Definition tamper_entry (kind tick xk xv missing : N) (e : s_entry) : s_entry :=
   let pol := match e_patch e with Some p => sp_policy p | None => 0 end in
+  let mk_entry := mk_entry0 (e_tick e) in
   match kind with
   | 1 => mk_entry (e_patch e) (e_root e + 1) (e_pdig e) (e_commit e) (e_parents e) (e_receipt e) (e_out e)
   | 2 => mk_entry (e_patch e) (e_root e) (e_pdig e) (e_commit e + 1) (e_parents e) (e_receipt e) (e_out e)
@@ -130,6 +133,8 @@ Definition tamper_entry (kind tick xk xv missing : N) (e : s_entry) : s_entry :=
                   (match e_receipt e with Some (_, d) => Some (tick + 2, d) | None => None end) (e_out e)
   | 10 => mk_entry (e_patch e) (e_root e) (e_pdig e) (e_commit e) (e_parents e)
                    (match e_receipt e with Some (tx, d) => Some (tx, d + 1) | None => None end) (e_out e)
+  | 11 => mk_entry0 (e_tick e + 1) (e_patch e) (e_root e) (e_pdig e) (e_commit e) (e_parents e) (e_receipt e) (e_out e)
+  | 12 => mk_entry (e_patch e) (e_root e) (e_pdig e) (e_commit e) [] (e_receipt e) (e_out e)
   | _ => e
   end.
 Fixpoint tamper (kind pos xk xv missing : N) (i : N) (h : list s_entry) : list s_entry :=
@@ -307,6 +312,21 @@ def gen_tamper(rng, n, p=0.5):
     return f"{rng.choice(TAMPERS)}@{rng.randint(0, n - 1)}"
 
 
+def gen_link_scen(rng, w, n):
+    """op sequences aimed at the coordinate / parent-link / checkpoint-metadata checks (/repo 90bd2fa): a tampered
+    commit id under a checkpoint one tick later, a dropped parent ref, an entry served with the wrong tick"""
+    k = rng.randint(0, n - 1)
+    t = rng.choice(LINK_TAMPERS)
+    src = rng.choice("LRC")
+    if t in ("commit", "pdig"):
+        cps = f"{k + 1}{src}" + (f",{rng.randint(0, k)}{rng.choice('LRC')}" if rng.random() < 0.5 else "")
+        ops = f"s{k + 1},s{k},s{k + 1},s{n},s0,mS{k + 1}q,x"
+    else:
+        cps = gen_cps(rng, n)
+        ops = f"s{k},s{k + 1},s{n},s0,s{min(n, k + 2)},c,s{k + 1}"
+    return f"O:{w}:R:{n}:{cps}:{t}@{k}:{ops}"
+
+
 def gen_case(rng, idx, kind, tier):
     """kind: 'short' (exhaustive sweeps) or 'long' (random op sequences, forks)."""
     nwl = 2 if rng.random() < 0.4 else 1
@@ -327,17 +347,21 @@ def gen_case(rng, idx, kind, tier):
                     for pos in range(n):
                         scen.append(f"S:{w}:{kind}@{pos}")
             else:
-                # sweeps over 6-7 ticks cost 6k-16k triples each: one tampered sweep there in the quick tier
-                for _ in range((1 if n >= 6 else 2) if tier == "quick" else (2 if n >= 6 else 5)):
+                # sweeps over 6-7 ticks cost 6k-16k triples each: one tampered sweep there in the quick tier;
+                # the first tampered sweep always targets the link / checkpoint-metadata checks
+                scen.append(f"S:{w}:{rng.choice(LINK_TAMPERS)}@{rng.randint(0, n - 1)}")
+                for _ in range((0 if n >= 6 else 1) if tier == "quick" else (1 if n >= 6 else 4)):
                     scen.append(f"S:{w}:{gen_tamper(rng, n, 1.0)}")
             scen.append(f"F:{w}:{gen_cps(rng, n)}")
             scen.append(f"O:{w}:R:{n}:{gen_cps(rng, n)}:{gen_tamper(rng, n)}:{gen_ops(rng, n, 8)}")
+            scen.append(gen_link_scen(rng, w, n))
             scen.append(f"D:{w}:{rng.randint(0, n)}:{gen_cps(rng, n)}:{gen_prog(rng, 2, rng.randint(1, 4), 128, [0, 9])}")
         else:
             for _ in range(3):
                 role = "W" if rng.random() < 0.1 else "R"
                 pin = rng.choice([n, n, n + 3, rng.randint(0, n)])
                 scen.append(f"O:{w}:{role}:{pin}:{gen_cps(rng, n)}:{gen_tamper(rng, n, 0.4)}:{gen_ops(rng, n, rng.randint(6, 16))}")
+            scen.append(gen_link_scen(rng, w, n))
             scen.append(f"F:{w}:{gen_cps(rng, n)}")
             scen.append(f"D:{w}:{rng.randint(0, n)}:{gen_cps(rng, n)}:{gen_prog(rng, 2, rng.randint(1, 5), 128, [0, 9])}")
         if idx % 10 == 0:
@@ -467,7 +491,7 @@ def scen_term(s, fx):
         ts = [t for t in cps_ticks(f[4], n)]
         ok_ts = [t for t in ts if t <= n]
         ops = "[" + ";".join(op_term(o, n) for o in f[6].split(",")) + "]"
-        stop = "false" if f[5] == "-" else "true"
+        stop = "false"
         return (f"(let '(st0, cpres) := place (mk_store boundary h0 []) (cp_states h0 b {n}) [{';'.join(map(str, ok_ts))}] in "
                 f"let h := {tamper_term(f[5])} in let st := mk_store boundary h (st_cps st0) in "
                 f"(1, cpres, finish lives (trace commits h0 h {stop} b (st, new_cursor slotmap {role} b {f[3]}) {ops})))")
@@ -893,8 +917,8 @@ def run(tier, seed, replay=None):
 MANIFEST = {
     "category": "proof",
     "text": ("Coq theorems (no axioms) over an executable model of PlaybackCursor::seek_to/step, replay_worldline_state_at, "
-             "restore_replay_base (target+1 checkpoint lookup), advance_replay_state (per-tick apply/root/commit/digest/receipt "
-             "verification, replay metadata), add_checkpoint validation, LocalProvenanceStore::fork and the live recording of "
+             "restore_replay_base (target+1 checkpoint lookup, root and replay-metadata checks of the checkpoint), advance_replay_state "
+             "(per-tick coordinate, parent link, apply/root/commit/digest/receipt verification, replay metadata), add_checkpoint validation, LocalProvenanceStore::fork and the live recording of "
              "entries, parametric in the state, patch application, state root and hashes: after ANY sequence of seeks/steps/mode, "
              "pin and role changes, checkpoints taken from the cursor (and, up to a state-root collision, checkpoints of arbitrary "
              "content accepted by add_checkpoint) the cursor holds exactly the state replayed from U0 for its tick, failed "
@@ -912,9 +936,9 @@ MANIFEST = {
              "read wrapper implementing ProvenanceStore to inject verification failures); blake3 crate. Modelled rather than "
              "verified: the seek/replay/checkpoint/fork control logic as Gallina functions; patch application, state root and "
              "commit hash are parameters (C04/C06/C05); the cursor is assumed to be built from the same canonical U0 object that "
-             "is passed to seek_to; debug_assert in finalize_replay_metadata and committed_ingress/materialization-error checkpoint "
+             "is passed to seek_to; the entry worldline-id check (one modelled store = one worldline), debug_assert in finalize_replay_metadata and committed_ingress/materialization-error checkpoint "
              "fields are not modelled. Restore-vs-advance decisions are observable only through injected failures; on untampered "
-             "histories the tie is by outcome. After a failed forward seek the real cursor keeps a partially advanced state "
-             "(failed_seek_state_partial; documented by SeekError; tampered histories are outside the quantifier). add_checkpoint "
+             "histories the tie is by outcome. A rejected seek leaves the cursor on its previous tick and state, for every store incl. tampered ones "
+             "(failed_seek_keeps_cursor; restored by /repo fix 7e0a2d4, before it the forward path mutated the state in place). add_checkpoint "
              "compares roots, not graphs: a forged checkpoint with extra unreachable content is accepted (probe in evidence; C06)."),
 }
